@@ -177,6 +177,31 @@ func getJ2TExtraStruct(fsm *types.J2TStateMachine, offset int) (td *thrift.TypeD
 	return
 }
 
+// rebaseReqsCache moves the requires-bitmap pointers of the open structs from the old cache to the grown one
+//
+//go:nocheckptr
+func rebaseReqsCache(fsm *types.J2TStateMachine, old []byte) {
+	oc := (*rt.GoSlice)(unsafe.Pointer(&old))
+	nc := (*rt.GoSlice)(unsafe.Pointer(&fsm.ReqsCache))
+	obase, nbase := uintptr(oc.Ptr), uintptr(nc.Ptr)
+	if obase == nbase {
+		return
+	}
+	for i := 0; i < fsm.SP; i++ {
+		st := fsm.At(i)
+		if s := types.J2T_STATE(st.State & 0xffff); (s != types.J2T_OBJ && s != types.J2T_OBJ_0) || st.TypeDesc == 0 {
+			continue
+		}
+		if td := (*thrift.TypeDescriptor)(unsafe.Pointer(st.TdPointer())); td.Type() != thrift.STRUCT {
+			continue
+		}
+		reqs := (*rt.GoString)(unsafe.Pointer(&(*_J2TExtra_STRUCT)(unsafe.Pointer(&st.Extra)).reqs))
+		if p := uintptr(reqs.Ptr); p >= obase && p < obase+uintptr(oc.Cap) {
+			reqs.Ptr = unsafe.Pointer(nbase + (p - obase))
+		}
+	}
+}
+
 // restoreReqsCache sets the length of the requires-bitmap cache to the end of the bitmap of the innermost open struct.
 // NOTICE: if the native code runs out of buffer while it is closing a struct, it rolls its state back,
 // but it has already released the bitmap of that struct and would release it once more on re-entry.
@@ -239,7 +264,11 @@ func (self BinaryConv) handleError(ctx context.Context, fsm *types.J2TStateMachi
 		}
 	case types.ERR_OOM_BM:
 		{
+			old := fsm.ReqsCache
 			fsm.GrowReqCache(p)
+			// NOTICE: the states of the open structs point into the old cache
+			rebaseReqsCache(fsm, old)
+			runtime.KeepAlive(old)
 			return true, nil
 		}
 	case types.ERR_OOM_KEY:
